@@ -30,6 +30,8 @@ type Engine struct {
 	maxVisits     int
 	deadline      time.Time
 	solverBin     []string
+	solverFresh   bool
+	solverInt     bool
 	stopOnViol    int
 
 	runtimeErrT     types.Type
@@ -200,6 +202,12 @@ func (e *Engine) explore(harness *ssa.Function, workers int) *RunResult {
 			fmt.Fprintln(os.Stderr, "cannot start solver:", err)
 			os.Exit(2)
 		}
+		if lp := os.Getenv("GOSX_SMTLOG"); lp != "" && i == 0 {
+			f, _ := os.Create(lp)
+			sol.log = f
+		}
+		sol.Fresh = e.solverFresh
+		sol.IntMode = e.solverInt
 		w := &Worker{eng: e, sol: sol}
 		wg.Add(1)
 		go func() {
